@@ -269,6 +269,16 @@ def main():
         if "--tier" in a:
             tier = a[a.index("--tier") + 1]
         sys.exit(cmd_check(pid, tier))
+    if a[0] == "all":
+        # every claimed check, quick tier (or --tier), one after the other; summary at the end
+        tier = a[a.index("--tier") + 1] if "--tier" in a else "quick"
+        bad = []
+        for pid in sorted(PROPS):
+            rc = cmd_check(pid, tier)
+            if rc != 0:
+                bad.append(pid)
+        log("ALL: %d checks, failing: %s" % (len(PROPS), bad))
+        sys.exit(1 if bad else 0)
     if a[0] == "manifest":
         from . import manifest
         manifest.write()
